@@ -11,7 +11,7 @@
 From Coq Require Import List Arith Bool NArith.
 From FFSM2 Require Import Model.TaskList Model.BitArray Model.BitStream Model.Plan Model.Ancestors Model.Machine
   Proofs.BitArrayProofs Proofs.TaskListProofs Proofs.TaskListRun Proofs.PlanProofs Proofs.MachineFrame Proofs.MachinePlan Proofs.MachineLife Proofs.GuardProofs Proofs.CycleProofs Proofs.PlanStep
-  Proofs.SerialProofs Proofs.LogProofs Proofs.MachineTop Model.Multi Generated.InitFacts Proofs.ConstructProofs Proofs.LifeMonitor Proofs.ActivationRounds Proofs.IndexSafety Proofs.FeatureProofs Model.Script Proofs.Contract Proofs.Histories Proofs.StatusBits.
+  Proofs.SerialProofs Proofs.LogProofs Proofs.MachineTop Model.Multi Generated.InitFacts Proofs.ConstructProofs Proofs.LifeMonitor Proofs.ActivationRounds Proofs.IndexSafety Proofs.FeatureProofs Model.Script Proofs.Contract Proofs.Histories Proofs.StatusBits Proofs.Worlds.
 Import ListNotations.
 
 (* every API history from construction, every behaviour of the callbacks, every n <= 255, capacity, limit, activation
@@ -174,4 +174,32 @@ Theorem C01_trace_only_grows :
          exists l : list (event P), tr P (run P cfg orc lg (pre ++ post)) = l ++ tr P (run P cfg orc lg pre).
 Proof. exact (trace_monotone). Qed.
 Print Assumptions C01_trace_only_grows.
+
+(* several instances (construction, destruction, copy construction, load from another instance's save(), API calls): if
+   the extracted contract test first_violation accepts a script - the model runner evaluates it for every script of the
+   correspondence check - then every live instance satisfies the machine invariant (with well-formed report bits)
+   afterwards, copies and loaded instances included *)
+Theorem C01_every_instance_of_every_accepted_script_has_the_invariant :
+  forall (P : Type) (cfg : config) (orc_of : nat -> oracle P),
+         wf_cfg cfg ->
+         (forall i : nat, wf_oracle P cfg (orc_of i)) ->
+         forall (slots : nat) (ops : list (wop P)),
+         first_violation P cfg orc_of 0 {| insts := repeat None slots; glog := [] |} ops = None ->
+         WInv P cfg (wrun P cfg orc_of slots ops).
+Proof. exact (wrun_inv). Qed.
+Print Assumptions C01_every_instance_of_every_accepted_script_has_the_invariant.
+
+(* ... and every API call the script makes is made on an instance with the invariant and is in_contract there: the per-
+   call statements of C01..C12 and C16 apply to every call of every script the check runs *)
+Theorem C01_every_call_of_every_accepted_script_is_in_the_domain :
+  forall (P : Type) (cfg : config) (orc_of : nat -> oracle P),
+         wf_cfg cfg ->
+         (forall i : nat, wf_oracle P cfg (orc_of i)) ->
+         forall (slots : nat) (pre : list (wop P)) (i : nat) (aop : api_op P) (post : list (wop P)),
+         first_violation P cfg orc_of 0 {| insts := repeat None slots; glog := [] |}
+           (pre ++ WOp P i aop :: post) = None ->
+         exists s : mstate P,
+           get_inst P (wrun P cfg orc_of slots pre) i = Some s /\ IInv P cfg s /\ in_contract P cfg s aop.
+Proof. exact (every_call_of_every_script). Qed.
+Print Assumptions C01_every_call_of_every_accepted_script_is_in_the_domain.
 
